@@ -79,7 +79,7 @@ func runC09(w *World) {
 			}
 			return
 		}
-		offset := 0   // data bytes the server holds according to the model
+		offset := 0     // data bytes the server holds according to the model
 		exists := false // the partial file exists according to the model
 		check := func(when string) bool {
 			if _, err := os.Stat(final); err == nil {
